@@ -38,6 +38,18 @@ def setItem {α} (l : List α) (i : Int) (v : α) : Except Err (List α) :=
   | some k => .ok (l.set k v)
   | none => .error "IndexError"
 
+/-- `s[i]` on a string: the one-character string at that position -/
+def getChar (s : List Char) (i : Int) : Except Err (List Char) :=
+  match idx s.length i with
+  | some k => match s[k]? with | some c => .ok [c] | none => .error "IndexError"
+  | none => .error "IndexError"
+
+/-- a variable that holds `None` or a list, used as a list (`None.append` / `sep.join(None)` raise) -/
+def unwrap {α} (o : Option α) : Except Err α :=
+  match o with
+  | some v => .ok v
+  | none => .error "AttributeError"
+
 /-- slice bound normalisation: clamp into `[0, n]` -/
 def bound (n : Nat) (i : Int) : Nat :=
   if 0 ≤ i then min i.toNat n else n - min (-i).toNat n
